@@ -114,15 +114,22 @@ pub struct CountingCutoff {
     pub at: usize,
     pub flag: Arc<AtomicBool>,
     pub log: bool,
+    /// safety net against non-termination of the code under test: stop after this many polls (0 = none) and say so
+    pub watchdog: usize,
+    pub dog: AtomicBool,
 }
 impl CountingCutoff {
     pub fn new(at: usize) -> Self {
-        CountingCutoff { polls: AtomicUsize::new(0), at, flag: Arc::new(AtomicBool::new(false)), log: false }
+        CountingCutoff { polls: AtomicUsize::new(0), at, flag: Arc::new(AtomicBool::new(false)), log: false, watchdog: 0, dog: AtomicBool::new(false) }
     }
 }
 impl Cutoff for CountingCutoff {
     fn must_stop(&self) -> bool {
         let k = self.polls.fetch_add(1, SeqCst) + 1;
+        if self.watchdog != 0 && k > self.watchdog {
+            self.dog.store(true, SeqCst);
+            return true;
+        }
         let stop = (self.at != 0 && k >= self.at) || self.flag.load(SeqCst);
         if self.log {
             emit(json!({"ev":"poll","k":k,"stop":stop}));
